@@ -20,7 +20,8 @@ def cfg : Cfg :=
 /-- the walkers in the richer world (Model/C05Dyn.lean): the same facts plus the `except` of ppid_map() -/
 def xcfg : XCfg :=
   { base := cfg
-    mapSkipsDenied := Gen.C05.ppidMapSkipsDenied }
+    mapSkipsDenied := Gen.C05.ppidMapSkipsDenied
+    mapSkipsGone := Gen.C05.ppidMapSkipsGone }
 
 /-- how the two stat readers cut the line, as extracted from the current source -/
 def scfg : StatCfg :=
